@@ -48,7 +48,8 @@ def main():
         else:
             c, out = sh("grep -rl --include=*.go '^package %s$' %s | grep -v _test.go | head -1" % (base, "/repo"))
             ddir = os.path.relpath(os.path.dirname(out.strip()), "/repo") if out.strip() else "."
-    run_demo = "go test -mod=mod -vet=off -count=1 -run '^(%s)$' ./%s" % ("|".join(tests), ddir)
+    tags = "-tags verif " if re.search(r"^//go:build\s+verif", src, re.M) else ""
+    run_demo = "go test %s-mod=mod -vet=off -count=1 -run '^(%s)$' ./%s" % (tags, "|".join(tests), ddir)
     # 1. clean tree: demo passes
     clean()
     shutil.copy(demo, os.path.join(WT, ddir, "zz_seed_demo_test.go"))
